@@ -12,8 +12,10 @@ import (
 
 func init() {
 	register(&Property{
-		ID:  "C10",
-		Gen: genC10,
+		ID:    "C10",
+		Files: []string{"publisher.go", "handler.go"},
+		Funcs: []string{"PublisherDef", "PublisherNewGenerics"},
+		Gen:   genC10,
 		Rule: "one publisher with 3..6 initial subscriptions (each with a scripted callback action: none / unsubscribe itself / unsubscribe another / subscribe a new one), optional Map-derived publisher with its own subscriptions, " +
 			"optional SubscribeOn(handler); 1..3 threads run histories over Publish(unique v) / Subscribe / Unsubscribe; oracle per (Publish, subscription): exactly one delivery when registered before the call and not unsubscribed " +
 			"before it returned, none when unsubscribed before it began, never two; subscription order without handler; handler thread identity; Map delivers fn(v) once; " +
